@@ -610,13 +610,15 @@ func c08Edges(res *Result) {
 	ctx := pongo2.Context{
 		"m": map[string]any{"n": nil, "sub": map[string]any{"k": "v"}}, "l": []any{nil, map[string]any{"k": 1}},
 		"st": c08Holder{Items: []any{nil}}, "pst": &c08Holder{}, "a": []int{10, 20, 30}, "arr": [2]string{"x", "y"}, "s": "hey",
-		"i": -1, "big": int64(-3), "fl": -2.5, "zero": 0, "three": 3,
+		"one": uint8(1), "i": -1, "big": int64(-3), "fl": -2.5, "zero": 0, "three": 3,
 	}
 	for _, c := range [][2]string{
 		{"{{ m.n.foo }}", ""}, {"{{ m.n.foo.bar }}", ""}, {"{{ l.0.k }}", ""}, {"{{ l.1.k }}", "1"}, {"{{ st.Extra.foo }}", ""}, {"{{ pst.Extra.foo }}", ""},
 		{"{{ st.Items.0.x }}", ""}, {"{{ m.n.0 }}", ""}, {"{{ m.n[0] }}", ""}, {"{{ m.sub.k }}", "v"}, {"{{ m.n|default:\"d\" }}", "d"}, {"{% if m.n.foo %}y{% else %}n{% endif %}", "n"},
 		{"{{ a[-1] }}", ""}, {"{{ a[i] }}", ""}, {"{{ a[big] }}", ""}, {"{{ a[fl] }}", ""}, {"{{ a[zero - 1] }}", ""}, {"{{ a[three] }}", ""}, {"{{ a[2] }}", "30"}, {"{{ a[zero] }}", "10"},
 		{"{{ arr[-1] }}", ""}, {"{{ arr[1] }}", "y"}, {"{{ s[-1] }}", ""}, {"{{ a.3 }}", ""}, {"{{ a.2 }}", "30"}, {"{% for v in a %}{{ a[forloop.Counter0 - 1] }};{% endfor %}", ";10;20;"},
+		// a subscript that is no number is no index (D61): nothing there, not the first element
+		{"{{ a['abc'] }}|{{ a[nosuch] }}|{{ a[true] }}|{{ a[m] }}|{{ s['x'] }}|{{ arr[a] }}", "|||||"}, {"{{ a['1'] }}|{{ a[1.9] }}|{{ a['2.0'] }}|{{ a[one] }}", "20|20|30|20"},
 	} {
 		res.Cases++
 		res.DistinctNontrivial++
